@@ -42,8 +42,8 @@ MANIFEST = {
     "text": "partial: for the decision model read out of processConditional / hasOneOfEtags / strListGetItem / etagParseInit / modifiedSince / processExpired / handleIMSReply / HttpHeader::update, "
             "theorems: a fresh hit is answered 304 only if the RFC 9110 reference evaluation of the request against the cached response says so and on well-formed requests the answer equals the reference "
             "(hit_answer_eq_reference), a failing If-Match on a hit gives 412, a 304 needs the entry's entity-tag (or '*') literally in If-None-Match or no If-None-Match and Last-Modified <= If-Modified-Since; "
-            "over histories (any number of steps, any origin version changes) every answer is justified against the response that would otherwise be sent provided the 304s that update the cache carry the stored validator, "
-            "no Content-Length, and the origin answered (history_sound_partial), with machine-checked counterexamples for each excluded region (the three findings); HttpHeader::update replaces exactly the fields named by the 304 and "
+            "over histories (any number of steps, any origin version changes) every answer is justified against the response that would otherwise be sent provided the 304s that update the cache carry the stored validator "
+            "and the origin answered (history_sound_partial), with machine-checked counterexamples for each excluded region (the three findings); HttpHeader::update replaces exactly the fields named by the 304 and "
             "leaves the stored body alone. The model is tied to the rebuilt binary by scenario correspondence (status, body version, X-V, ETag, Last-Modified and the conditional headers the origin received, per step) "
             "and a direct oracle (python RFC 9110 evaluator + version bookkeeping from the observation alone); the comparison core (hasOneOfEtags over getList, modifiedSince) "
             "is additionally run in-process from the staged store.cc/ETag.cc/StrList.cc under ASan/UBSan against the model and the RFC reference. Runtime behaviour the model cannot exhibit: socket I/O, store swap, timing, concurrency between clients",
@@ -886,7 +886,7 @@ def tag(line, impl, model):
 # ------------------------------------------------------------------------------------------- findings
 
 def _events(vers, steps, obs, upto):
-    """poisoning events still active at step `upto`: (kind, step) with kind 'foreign' | 'cl'"""
+    """poisoning events still active at step `upto`: (kind, step) with kind 'foreign'"""
     ev = []
     held = None
     for j in range(upto + 1):
@@ -898,8 +898,6 @@ def _events(vers, steps, obs, upto):
         elif oc.startswith("304:") and held is not None:
             if steps[j].k != held and names_other(vers, steps[j].k, held):
                 ev.append(("foreign", j))
-            if steps[j].omode[0] == "c" and int(steps[j].omode[1:]) != BODY_BASE + held:
-                ev.append(("cl", j))
     return ev
 
 
@@ -922,10 +920,6 @@ def classify(line, impl, why):
     #     the old body with the new entity-tag; everything served from it afterwards is inconsistent
     if any(k == "foreign" for k, j in ev):
         return "C14-304-foreign-validator"
-    # (1) a 304 that carried Content-Length rewrote the stored Content-Length: a 200 from that entry has a cut or incomplete body
-    if any(k == "cl" for k, j in ev) and "body is" in w and facts.get("W") is not None and \
-            (obs[i][1].startswith("v%d[" % facts["W"]) or obs[i][1] in ("-", "v%d!" % facts["W"])):
-        return "C14-304-content-length"
     # (3) stale entry served after a failed revalidation (origin 5xx) without looking at If-Match
     if "If-Match fails" in w and facts.get("ostatus") == 500 and obs[i][0] == "200":
         return "C14-ifmatch-stale-if-error"
